@@ -7,6 +7,18 @@ GT = "./internal/mysql/gtids"
 OPT = "./internal/app/optimization"
 
 REGISTRY = {
+    "C03": dict(
+        level="exploration",
+        units=[
+            dict(pkg=DCS, test="TestVerifC03Lock", quick=6000, thorough=200000, shards_quick=8, shards_thorough=16),
+        ],
+    ),
+    "C15": dict(
+        level="exploration",
+        units=[
+            dict(pkg=DCS, test="TestVerifC15", quick=16000, thorough=150000, shards_quick=8, shards_thorough=16),
+        ],
+    ),
     "C13": dict(
         level="exploration",
         units=[
